@@ -1,5 +1,7 @@
 // World core: construction, operand selection, model bookkeeping, oracles that span
 // several objects (scopes, regions, substitutions, identifier uniqueness), digests.
+#include <cstdlib>
+#include <cstdio>
 #include "world.hpp"
 #include <ipr/traversal>
 #include <algorithm>
@@ -76,8 +78,9 @@ World::World(RunCtx& c, const WorldOptions& o, std::string property) : ctx(c), o
                                "short", "unsigned short", "int", "unsigned int", "long", "unsigned long", "long long", "unsigned long long",
                                "float", "double", "long double", "...", "typename", "class", "union", "enum", "namespace" };
    builtins.symbols = { &L.false_value(), &L.true_value(), &L.nullptr_value(), &L.default_value(), &L.delete_value() };
-   for (auto t : builtins.types) types.add(t);
-   for (auto s : builtins.symbols) exprs.add(s);
+   for (auto t : builtins.types) { types.add(t); builtin_leaf.insert(nref(*t)); }
+   for (auto s : builtins.symbols) { exprs.add(s); builtin_leaf.insert(nref(*s)); }
+   builtin_leaf.insert(nref(L.nullptr_value().type()));
    linkages.add(&L.cxx_linkage());
    linkages.add(&L.c_linkage());
    spellings[&L.cxx_linkage()] = { "C++", "" };
@@ -88,6 +91,17 @@ World::World(RunCtx& c, const WorldOptions& o, std::string property) : ctx(c), o
 
 World::~World()
 {
+   if (const char* f = std::getenv("VERIF_TRACE")) {
+      // pool entries the model knows nothing about (they can never be chosen where an older node is required)
+      if (std::FILE* out = std::fopen(f, "a")) {
+         auto scan = [&](const char* pool, auto& v) {
+            for (auto p : v) if (p != nullptr and rec(nref(*p)) == nullptr and not builtin_leaf.count(nref(*p)))
+               std::fprintf(out, "TRACE unmodelled %s %s %s\n", pool, category_name(int(p->category)), ref_str(nref(*p)).c_str());
+         };
+         scan("exprs", exprs.v); scan("types", types.v); scan("decls", decls.v); scan("stmts", stmts.v); scan("names", names.v);
+         std::fclose(out);
+      }
+   }
    for (auto p : noise_blocks) sim::heap::noise_free(p);
    noise_blocks.clear();
    sim::heap::set_owner(opt.owner);
@@ -271,6 +285,8 @@ Verdict World::rerequest_all(size_t cap)
 
 void World::note_identifier(const ipr::Identifier& id)
 {
+   try { word_size[nref(id)] = id.string().size(); }          // for print-size estimates only
+   catch (const std::logic_error&) { }
    if (not opt.track_identifiers) return;
    std::string sp;
    try {
@@ -670,6 +686,18 @@ Verdict World::check_homogeneous(const HomoModel& h)
       // lookup by name finds the member, selection by its type returns it
       auto ovl = sc[*want_name];
       if (not ovl.is_valid()) return Verdict::fail(tag + "/lookup-miss", "lookup by name does not find member " + std::to_string(i));
+      // Sets are singletons here: a name used by several members (two bases whose types carry the same name) is
+      // answered by the first of them, and only that one is asserted to be selected by its type.
+      bool first_with_name = true;
+      for (size_t j = 0; j < i and first_with_name; ++j) {
+         const ipr::Name* other = h.decls[j].name;
+         if (h.kind == H_bases) {
+            try { other = &h.decls[j].type->name(); }
+            catch (const std::logic_error&) { other = nullptr; }
+         }
+         if (other != nullptr and nref(*other) == nref(*want_name)) first_with_name = false;
+      }
+      if (not first_with_name) continue;
       auto sel = ovl.get()[*de.type];
       if (not sel.is_valid() or nref(sel.get()) != nref(d)) return Verdict::fail(tag + "/select", "selection by the member's type does not return the member");
    }
@@ -756,6 +784,45 @@ Verdict World::check_identifier_uniqueness()
 // ---------------------------------------------------------------------------------
 // digest of the observable graph with addresses replaced by first-occurrence numbers
 // ---------------------------------------------------------------------------------
+double World::print_weight(Ref r)
+{
+   // links a printer never follows downwards (they point outwards or sideways)
+   static const char* const outward[] = { "enclosing", "owner", "home_region", "lexical_region", "master", "parent_module", "membership",
+                                          "primary_template", "definition", "specializations" };
+   // a region stands for the declarations of its scope
+   std::unordered_map<Ref, const ScopeModel*> by_region;
+   for (auto& kv : scopes) if (kv.second.region != nullptr) by_region[nref(*kv.second.region)] = &kv.second;
+   struct Walk {
+      World& w;
+      std::unordered_map<Ref, const ScopeModel*>& by_region;
+      std::set<Ref> on_stack;
+      double go(Ref r)
+      {
+         if (r == nullptr or r == ABSENT or uintptr_t(r) < 0x1000) return 0;
+         auto m = w.weight_memo.find(r);
+         if (m != w.weight_memo.end()) return m->second;
+         if (auto sp = w.spelling_of_string.find(r); sp != w.spelling_of_string.end()) return 1 + double(sp->second.size()) / 8;   // a word costs its length
+         double own = 1;
+         if (auto ws = w.word_size.find(r); ws != w.word_size.end()) own += double(ws->second) / 8;
+         auto it = w.recs.find(r);
+         if (it == w.recs.end()) return own;
+         if (it->second.exp.cat == int(ipr::Category_code::String))
+            if (const Slot* sz = it->second.exp.find("size"); sz != nullptr and not sz->is_ref and sz->val > 0) own += double(sz->val) / 8;
+         if (not on_stack.insert(r).second) return 0;          // a back edge: counted where it was entered
+         double sum = own;
+         auto skip = [](const char* key) { for (auto o : outward) if (std::strcmp(o, key) == 0) return true; return false; };
+         for (auto& sl : it->second.exp.slots) if (sl.is_ref and not skip(sl.key)) sum += go(sl.ref);
+         for (auto& sq : it->second.exp.seqs) if (not skip(sq.key)) for (Ref e : sq.elems) sum += go(e);
+         if (auto rs = by_region.find(r); rs != by_region.end()) for (auto& de : rs->second->decls) sum += go(nref(*de.decl));
+         if (sum > 1e12) sum = 1e12;
+         on_stack.erase(r);
+         w.weight_memo[r] = sum;
+         return sum;
+      }
+   } walk{ *this, by_region, { } };
+   return walk.go(r);
+}
+
 uint64_t World::graph_digest()
 {
    sim::Digest d;
@@ -826,6 +893,20 @@ void expect_stmt_defaults(Reading& e)
    e.q("annotation", { }).q("attributes", { });
 }
 
+// VERIF_TRACE=1: one line per operation (and nested prerequisite) with the node it returned; for inspecting a replay.
+void World::trace_op(const char* what, const Op& op, Ref r)
+{
+   // VERIF_TRACE names a file (appended to); the process's stderr is rewound by breadcrumbs, so it is not used
+   static std::FILE* const out = [] { const char* f = std::getenv("VERIF_TRACE"); return f != nullptr ? std::fopen(f, "a") : nullptr; }();
+   if (out == nullptr) return;
+   const int code = ((op.code % OP_COUNT) + OP_COUNT) % OP_COUNT;
+   Rec* rc = r != nullptr ? rec(r) : nullptr;
+   std::fprintf(out, "TRACE step=%zu %s %s(%lld,%lld,%lld,%lld,%lld,%lld) -> %s seq=%lld\n", size_t(step), what, op_name(code),
+                (long long) op.a[0], (long long) op.a[1], (long long) op.a[2], (long long) op.a[3], (long long) op.a[4], (long long) op.a[5],
+                ref_str(r).c_str(), rc ? (long long) rc->seq : -1LL);
+   std::fflush(out);
+}
+
 Ref World::dispatch(const Op& op)
 {
    const int code = ((op.code % OP_COUNT) + OP_COUNT) % OP_COUNT;
@@ -842,6 +923,7 @@ Ref World::nested(const Op& op)
    current_op = ((op.code % OP_COUNT) + OP_COUNT) % OP_COUNT;
    ++op_counts[size_t(current_op)];
    Ref r = dispatch(op);
+   trace_op("  nested", op, r);
    current_op = saved;
    return r;
 }
@@ -863,6 +945,7 @@ Ref World::apply(const Op& op)
    if (op.fault > 0) { ++faults_configured; sim::heap::arm_fault(uint32_t(op.fault)); }
    try {
       r = dispatch(op);
+      trace_op("op", op, r);
    }
    catch (const std::bad_alloc&) {
       sim::g_sut_depth = 0;
